@@ -1075,6 +1075,10 @@ def _handle_direction(e, position, part, ongoing):
         if isinstance(o, score.Tempo):
             _add_tempo_if_unique(position, part, o)
         else:
+            # the <staff> of the direction applies to all its direction types
+            # (so far it was only passed on to dynamics, pedals and octave shifts)
+            if staff is not None and getattr(o, "staff", staff) is None:
+                o.staff = staff
             part.add(o, position)
 
     for o in ending_directions:
